@@ -20,6 +20,13 @@ type vVector struct {
 	Bytes   map[string][]uint64 `json:"bytes"`
 	Choices []int64             `json:"choices"`
 	Sched   []int64             `json:"sched"`
+	Hashes  []vHashTarget       `json:"hashes"`
+	Seed    uint32              `json:"seed"`
+}
+
+type vHashTarget struct {
+	Key []uint64 `json:"key"`
+	H   uint32   `json:"h"`
 }
 
 var (
@@ -167,3 +174,73 @@ func vJoin()          { vWg.Wait() }
 func vYield()         {}
 func vThreadID() int  { return 0 }
 func vHeldLocks() int { return 0 }
+
+// ---- native realisation of the solver's hash assignment ----
+// The engine treats hash.Sum32WithSeed as an uninterpreted function. A replay
+// has to use real keys: the last aligned 4-byte block of a key is solved so
+// that the real MurmurHash3 (pinned seed) equals the model's hash value. Block
+// mix and finaliser of MurmurHash3 are bijections, so a solution always exists.
+
+func vInv32(a uint32) uint32 { // modular inverse of an odd number mod 2^32
+	x := a
+	for i := 0; i < 5; i++ {
+		x *= 2 - a*x
+	}
+	return x
+}
+
+func vRotr(x uint32, r uint) uint32 { return x>>r | x<<(32-r) }
+func vRotl(x uint32, r uint) uint32 { return x<<r | x>>(32-r) }
+
+func vFixHash(k []byte) {
+	n := len(k)
+	if n < 4 || n%4 != 0 {
+		return
+	}
+	var target uint32
+	found := false
+	for _, h := range vVec.Hashes {
+		if len(h.Key) != n {
+			continue
+		}
+		same := true
+		for i := range k {
+			if uint64(k[i]) != h.Key[i] {
+				same = false
+				break
+			}
+		}
+		if same {
+			target, found = h.H, true
+		}
+	}
+	if !found {
+		return
+	}
+	const c1, c2 = 0xcc9e2d51, 0x1b873593
+	// state before the last block
+	h1 := vVec.Seed
+	for i := 0; i+4 <= n-4; i += 4 {
+		k1 := uint32(k[i]) | uint32(k[i+1])<<8 | uint32(k[i+2])<<16 | uint32(k[i+3])<<24
+		k1 *= c1
+		k1 = vRotl(k1, 15)
+		k1 *= c2
+		h1 ^= k1
+		h1 = vRotl(h1, 13)
+		h1 = h1*5 + 0xe6546b64
+	}
+	// invert the finaliser
+	h := target
+	h ^= h >> 16
+	h *= vInv32(0xc2b2ae35)
+	h ^= h>>13 ^ h>>26
+	h *= vInv32(0x85ebca6b)
+	h ^= h >> 16
+	h ^= uint32(n)
+	// invert the block step
+	x := (h - 0xe6546b64) * vInv32(5)
+	x = vRotr(x, 13)
+	km := x ^ h1
+	k1 := vRotr(km*vInv32(c2), 15) * vInv32(c1)
+	k[n-4], k[n-3], k[n-2], k[n-1] = byte(k1), byte(k1>>8), byte(k1>>16), byte(k1>>24)
+}
